@@ -1,0 +1,13 @@
+//go:build verif
+
+// Contracts (machine-checked specifications) for the base controller, read by /verif's govc.
+// This file contains comments only and compiles to nothing with or without the tag.
+
+package controller
+
+//@ func NewBase(id) (result, err)
+//@   ensures[C05] err == nil ==> result != nil && result.id == id
+
+//@ func (b *BaseController) ID() (id)
+//@   requires[base] b != nil
+//@   ensures[C05] id == b.id
